@@ -1,8 +1,13 @@
 // C04 conformance driver for the primal-dual interior-point LP/QP solver.
-//   program_driver <out.ndjson> <seed> <small-cases> <kkt-cases> <pair-cases>
+//   program_driver <out.ndjson> <seed> <small-cases> <kkt-cases> <pair-cases> [<extra-cases>]
+// extra cases (after the others, so that the first three families see the same random stream as before): restatements with permuted
+// rows, programs stated as several constraint blocks (make_less / make_greater / row overloads, shuffled argument order), programs
+// without inequalities (the direct KKT solve), further planted infeasible / unbounded programs, generic interior user starts.
 #include "trace.h"
 #include <functional>
 #include <nano/program/solver.h>
+#include <optional>
+#include <utility>
 
 using namespace nano;
 
@@ -243,6 +248,7 @@ struct kkt_program_t
     vector_t c, b, h, xstar;
     double   fstar{0};
     bool     linear{false};
+    vector_t u, v; // the multipliers of the construction (as they enter the stationarity condition)
 };
 
 kkt_program_t make_kkt(vt::Rng& rng)
@@ -300,6 +306,9 @@ kkt_program_t make_kkt(vt::Rng& rng)
         P.c.vector() -= P.A.matrix().transpose() * (v.vector() * scale);
     }
     P.fstar = 0.5 * P.xstar.dot(P.Q.matrix() * P.xstar.vector()) + P.c.dot(P.xstar);
+    P.u     = u;
+    P.v     = vector_t(p);
+    P.v.vector() = v.vector() * scale;
     return P;
 }
 
@@ -387,6 +396,29 @@ void kkt_case(vt::Rng& rng, int64_t icase)
         "status", status_name(state.m_status)).i("iters", state.m_iters).b("eqOK", cl.eqOK).b("ineqOK", cl.ineqOK).b("objOK", cl.objOK).b("gapOK", cl.gapOK));
 }
 
+struct pair_result_t
+{
+    bool agree{true}, okB{true};
+};
+
+// the clauses of the restated program R on its own, and: the objectives of the two solutions agree (after undoing a rescaling of the
+// objective) within the sum of the two bounds of the property
+pair_result_t compare_pair(const kkt_program_t& P, const kkt_program_t& R, const program::solver_state_t& sa,
+                           const program::solver_state_t& sb, const bool rescaled_objective)
+{
+    const auto cb = check(R.Q, R.c, R.A, R.b, R.G, R.h, sb, R.xstar, R.fstar);
+    const auto scale = (P.fstar != 0.0 && rescaled_objective) ? R.fstar / P.fstar : 1.0;
+    const auto Ma    = std::max({1e-3, P.Q.lpNorm<2>(), P.c.lpNorm<2>()}), Mb = std::max({1e-3, R.Q.lpNorm<2>(), R.c.lpNorm<2>()});
+    const auto ba    = 1e-8 * Ma * (1.0 + (sa.m_x - P.xstar).lpNorm<2>() + sa.m_u.lpNorm<1>() + sa.m_v.lpNorm<1>());
+    const auto bb    = 1e-8 * Mb * (1.0 + (sb.m_x - R.xstar).lpNorm<2>() + sb.m_u.lpNorm<1>() + sb.m_v.lpNorm<1>());
+    const auto fa    = 0.5 * sa.m_x.dot(P.Q.matrix() * sa.m_x.vector()) + P.c.dot(sa.m_x);
+    const auto fb    = 0.5 * sb.m_x.dot(R.Q.matrix() * sb.m_x.vector()) + R.c.dot(sb.m_x);
+    pair_result_t out;
+    out.agree = std::fabs(fa * scale - fb) <= ba * std::fabs(scale) + bb;
+    out.okB   = cb.eqOK && cb.ineqOK && cb.objOK && cb.gapOK;
+    return out;
+}
+
 void pair_case(vt::Rng& rng, int64_t icase)
 {
     const auto P = make_kkt(rng);
@@ -471,17 +503,721 @@ void pair_case(vt::Rng& rng, int64_t icase)
         what = "permuted variables";
     }
     const auto sa = solve(P), sb = solve(R);
-    const auto cb = check(R.Q, R.c, R.A, R.b, R.G, R.h, sb, R.xstar, R.fstar);
-    // objectives agree (after undoing the objective rescaling) within the sum of the two bounds
-    const auto scale = (P.fstar != 0.0 && kind == 2) ? R.fstar / P.fstar : 1.0;
-    const auto Ma    = std::max({1e-3, P.Q.lpNorm<2>(), P.c.lpNorm<2>()}), Mb = std::max({1e-3, R.Q.lpNorm<2>(), R.c.lpNorm<2>()});
-    const auto ba    = 1e-8 * Ma * (1.0 + (sa.m_x - P.xstar).lpNorm<2>() + sa.m_u.lpNorm<1>() + sa.m_v.lpNorm<1>());
-    const auto bb    = 1e-8 * Mb * (1.0 + (sb.m_x - R.xstar).lpNorm<2>() + sb.m_u.lpNorm<1>() + sb.m_v.lpNorm<1>());
-    const auto fa    = 0.5 * sa.m_x.dot(P.Q.matrix() * sa.m_x.vector()) + P.c.dot(sa.m_x);
-    const auto fb    = 0.5 * sb.m_x.dot(R.Q.matrix() * sb.m_x.vector()) + R.c.dot(sb.m_x);
-    const auto agree = std::fabs(fa * scale - fb) <= ba * std::fabs(scale) + bb;
-    vt::put(vt::J("Pair").i("case", icase).s("what", what).s("statusA", status_name(sa.m_status)).s("statusB", status_name(sb.m_status)).b("agree", agree).b(
-        "okB", cb.eqOK && cb.ineqOK && cb.objOK && cb.gapOK));
+    const auto pr = compare_pair(P, R, sa, sb, kind == 2);
+    vt::put(vt::J("Pair").i("case", icase).s("what", what).s("statusA", status_name(sa.m_status)).s("statusB", status_name(sb.m_status)).b("agree", pr.agree).b(
+        "okB", pr.okB));
+}
+
+// ---------------------------------------------------------------------------------------------------------------------------------
+// extra cases
+std::vector<tensor_size_t> rperm(vt::Rng& rng, const tensor_size_t n)
+{
+    std::vector<tensor_size_t> perm(static_cast<size_t>(n));
+    for (tensor_size_t j = 0; j < n; ++j)
+    {
+        perm[static_cast<size_t>(j)] = j;
+    }
+    for (size_t j = perm.size(); j > 1; --j)
+    {
+        std::swap(perm[j - 1], perm[static_cast<size_t>(rng.range(0, static_cast<int64_t>(j) - 1))]);
+    }
+    return perm;
+}
+
+void permute_rows(vt::Rng& rng, matrix_t& M, vector_t& v)
+{
+    const auto perm = rperm(rng, M.rows());
+    const auto M0   = M;
+    const auto v0   = v;
+    for (tensor_size_t i = 0; i < M.rows(); ++i)
+    {
+        M.matrix().row(i) = M0.matrix().row(perm[static_cast<size_t>(i)]);
+        v(i)              = v0(perm[static_cast<size_t>(i)]);
+    }
+}
+
+// restatement with permuted rows: the same inequalities and the same equalities in another order
+void rowperm_case(vt::Rng& rng, int64_t icase)
+{
+    const auto P = make_kkt(rng);
+    auto       R = P;
+    permute_rows(rng, R.G, R.h);
+    if (R.A.rows() > 0)
+    {
+        permute_rows(rng, R.A, R.b);
+    }
+    const auto sa = solve(P), sb = solve(R);
+    const auto pr = compare_pair(P, R, sa, sb, false);
+    vt::put(vt::J("Pair").i("case", icase).s("what", "permuted rows").s("statusA", status_name(sa.m_status)).s("statusB", status_name(sb.m_status)).b(
+        "agree", pr.agree).b("okB", pr.okB));
+}
+
+// a KKT-constructed program whose inequalities are a box (one or two sides, scalar or per-variable bounds) and a few general rows,
+// so that it can be stated in one block or as make_less / make_greater / general blocks
+struct box_program_t : kkt_program_t
+{
+    bool          upper{false}, lower{false}, scalar{false}, eq_row{false};
+    double        ub_s{0}, lb_s{0};
+    vector_t      ub, lb;
+    tensor_size_t rest{0};
+};
+
+box_program_t make_kkt_box(vt::Rng& rng)
+{
+    box_program_t P;
+    const auto    n       = rng.range(1, 12);
+    const auto    p       = rng.range(0, std::max<int64_t>(0, n - 1));
+    const auto    boxkind = rng.range(0, 3);
+    P.upper               = boxkind != 3;
+    P.lower               = boxkind != 2;
+    const auto nbox       = (P.upper ? n : 0) + (P.lower ? n : 0);
+    P.rest                = rng.range(0, 2 * n + 2 - nbox);
+    P.scalar              = rng.coin(1, 3);
+    P.eq_row              = rng.coin();
+    const auto m          = nbox + P.rest;
+    const auto scale      = std::pow(10.0, rng.uniform(-2.0, 2.0));
+    P.linear              = rng.coin(1, 3);
+    if (P.linear)
+    {
+        P.Q = matrix_t::zero(n, n);
+    }
+    else
+    {
+        const auto D = rmat(rng, rng.range(1, n), n, -1.0, 1.0);
+        P.Q          = matrix_t(n, n);
+        P.Q.matrix() = scale * D.matrix().transpose() * D.matrix();
+    }
+    P.xstar = rvec(rng, n, -2.0, 2.0);
+    if (P.scalar)
+    {
+        P.ub_s = rng.uniform(0.5, 2.0);
+        P.lb_s = rng.uniform(-2.0, -0.5);
+        for (tensor_size_t j = 0; j < n; ++j)
+        {
+            const auto t = rng.range(0, 3);
+            P.xstar(j)   = (t == 0 && P.upper) ? P.ub_s : (t == 1 && P.lower) ? P.lb_s : rng.uniform(P.lb_s + 0.1, P.ub_s - 0.1);
+        }
+    }
+    P.A = rmat(rng, p, n, -1.0, 1.0);
+    P.b = vector_t(p);
+    if (p > 0)
+    {
+        P.b.vector() = P.A.matrix() * P.xstar.vector();
+    }
+    P.G = matrix_t::zero(m, n);
+    P.h = vector_t(m);
+    tensor_size_t row = 0;
+    if (P.upper)
+    {
+        for (tensor_size_t j = 0; j < n; ++j)
+        {
+            P.G(row++, j) = 1.0;
+        }
+    }
+    if (P.lower)
+    {
+        for (tensor_size_t j = 0; j < n; ++j)
+        {
+            P.G(row++, j) = -1.0;
+        }
+    }
+    for (; row < m; ++row)
+    {
+        P.G.matrix().row(row) = rvec(rng, n, -1.0, 1.0).vector().transpose();
+    }
+    P.u = vector_t::zero(m);
+    std::vector<bool> is_active(static_cast<size_t>(m), false);
+    int64_t           active = 0;
+    if (P.scalar)
+    {
+        // the box rows are fixed by the scalar bounds
+        for (tensor_size_t i = 0; i < nbox; ++i)
+        {
+            const auto is_upper = P.upper && i < n;
+            P.h(i)              = is_upper ? P.ub_s : -P.lb_s;
+            if (P.G.matrix().row(i).dot(P.xstar.vector()) == P.h(i))
+            {
+                is_active[static_cast<size_t>(i)] = true;
+                ++active;
+            }
+        }
+    }
+    for (const auto i : rperm(rng, m))
+    {
+        if (P.scalar && i < nbox)
+        {
+            continue;
+        }
+        // (never both sides of one variable active: no strictly feasible point otherwise)
+        const auto other    = (i >= nbox || !P.upper || !P.lower) ? tensor_size_t{-1} : (i < n ? i + n : i - n);
+        const auto blocked  = other >= 0 && is_active[static_cast<size_t>(other)];
+        const auto activate = !blocked && (P.linear ? (active + p < n || rng.coin(1, 4)) : rng.coin(1, 3));
+        const auto gx       = P.G.matrix().row(i).dot(P.xstar.vector());
+        if (activate)
+        {
+            P.h(i)                            = gx;
+            is_active[static_cast<size_t>(i)] = true;
+            ++active;
+        }
+        else
+        {
+            P.h(i) = gx + rng.uniform(0.1, 2.0);
+        }
+    }
+    for (tensor_size_t i = 0; i < m; ++i)
+    {
+        if (is_active[static_cast<size_t>(i)])
+        {
+            P.u(i) = rng.uniform(0.1, 2.0) * scale;
+        }
+    }
+    P.v          = rvec(rng, p, -1.0, 1.0);
+    P.v.vector() *= scale;
+    P.c          = vector_t(n);
+    P.c.vector() = -(P.Q.matrix() * P.xstar.vector()) - P.G.matrix().transpose() * P.u.vector();
+    if (p > 0)
+    {
+        P.c.vector() -= P.A.matrix().transpose() * P.v.vector();
+    }
+    P.fstar = 0.5 * P.xstar.dot(P.Q.matrix() * P.xstar.vector()) + P.c.dot(P.xstar);
+    if (P.upper)
+    {
+        P.ub = P.h.vector().head(n);
+    }
+    if (P.lower)
+    {
+        P.lb = -P.h.vector().segment(P.upper ? n : 0, n);
+    }
+    return P;
+}
+
+// the blocks of a box program (kept alive while the program is stated: the library's constraints may refer to them)
+struct blocks_t
+{
+    explicit blocks_t(const box_program_t& P)
+        : m_P(P)
+    {
+        const auto n    = P.c.size();
+        const auto nbox = (P.upper ? n : 0) + (P.lower ? n : 0);
+        m_Grest         = matrix_t(P.rest, n);
+        m_hrest         = vector_t(P.rest);
+        if (P.rest > 0)
+        {
+            m_Grest.matrix() = P.G.matrix().bottomRows(P.rest);
+            m_hrest.vector() = P.h.vector().tail(P.rest);
+            m_grow           = m_Grest.matrix().row(0).transpose();
+        }
+        (void)nbox;
+        const auto p = P.A.rows();
+        // equalities: the last row on its own (row overload) when there are several (or when there is one and the coin says so)
+        m_has_e2 = p >= 2 || (p == 1 && P.eq_row);
+        m_p1     = m_has_e2 ? p - 1 : p;
+        m_A1     = matrix_t(m_p1, n);
+        m_b1     = vector_t(m_p1);
+        if (m_p1 > 0)
+        {
+            m_A1.matrix() = P.A.matrix().topRows(m_p1);
+            m_b1.vector() = P.b.vector().head(m_p1);
+        }
+        if (m_has_e2)
+        {
+            m_arow = P.A.matrix().row(p - 1).transpose();
+            m_brow = P.b(p - 1);
+        }
+    }
+
+    const box_program_t& m_P;
+    matrix_t             m_Grest, m_A1;
+    vector_t             m_hrest, m_b1, m_grow, m_arow;
+    double               m_brow{0};
+    bool                 m_has_e2{false};
+    tensor_size_t        m_p1{0};
+};
+
+struct stated_t
+{
+    std::optional<program::linear_program_t>    m_linear;
+    std::optional<program::quadratic_program_t> m_quadratic;
+    int                                         m_blocks{0};
+};
+
+enum block_category
+{
+    cL,
+    cG,
+    cR,
+    cE1,
+    cE2
+};
+
+template <int... cats>
+using cats_t = std::integer_sequence<int, cats...>;
+
+// state the program with the blocks collected so far (in the order of the arguments)
+template <bool scalar, class... tconstraints>
+stated_t state_blocks(cats_t<>, const blocks_t& B, const tconstraints&... constraints)
+{
+    const auto& P = B.m_P;
+    stated_t    out;
+    out.m_blocks = static_cast<int>(sizeof...(constraints));
+    if constexpr (sizeof...(constraints) > 0)
+    {
+        if (P.linear)
+        {
+            out.m_linear = program::make_linear(P.c, constraints...);
+        }
+        else
+        {
+            out.m_quadratic = program::make_quadratic(P.Q, P.c, constraints...);
+        }
+    }
+    return out;
+}
+
+// append the next kind of block (if the program has it) and go on
+template <bool scalar, int cat, int... cats, class... tconstraints>
+stated_t state_blocks(cats_t<cat, cats...>, const blocks_t& B, const tconstraints&... constraints)
+{
+    const auto& P    = B.m_P;
+    const auto  n    = P.c.size();
+    const auto  next = cats_t<cats...>{};
+    const auto  with = [&](const auto& constraint) { return state_blocks<scalar>(next, B, constraints..., constraint); };
+    const auto  skip = [&]() { return state_blocks<scalar>(next, B, constraints...); };
+    if constexpr (cat == cL)
+    {
+        if constexpr (scalar)
+        {
+            return !P.upper ? skip() : with(program::make_less(n, P.ub_s));
+        }
+        else
+        {
+            return !P.upper ? skip() : with(program::make_less(P.ub));
+        }
+    }
+    else if constexpr (cat == cG)
+    {
+        if constexpr (scalar)
+        {
+            return !P.lower ? skip() : with(program::make_greater(n, P.lb_s));
+        }
+        else
+        {
+            return !P.lower ? skip() : with(program::make_greater(P.lb));
+        }
+    }
+    else if constexpr (cat == cR)
+    {
+        return P.rest == 0 ? skip() : P.rest == 1 ? with(program::make_inequality(B.m_grow, B.m_hrest(0))) : with(program::make_inequality(B.m_Grest, B.m_hrest));
+    }
+    else if constexpr (cat == cE1)
+    {
+        return B.m_p1 == 0 ? skip() : with(program::make_equality(B.m_A1, B.m_b1));
+    }
+    else
+    {
+        return !B.m_has_e2 ? skip() : with(program::make_equality(B.m_arow, B.m_brow));
+    }
+}
+
+// the rows [M | v] as a sorted list (the order of the stacked rows is the library's business)
+std::vector<std::vector<double>> sorted_rows(const matrix_t& M, const vector_t& v)
+{
+    std::vector<std::vector<double>> rows;
+    for (tensor_size_t i = 0; i < M.rows(); ++i)
+    {
+        std::vector<double> row;
+        for (tensor_size_t j = 0; j < M.cols(); ++j)
+        {
+            row.push_back(M(i, j));
+        }
+        row.push_back(i < v.size() ? v(i) : std::numeric_limits<double>::quiet_NaN());
+        rows.push_back(row);
+    }
+    std::sort(rows.begin(), rows.end());
+    return rows;
+}
+
+void blocks_case(vt::Rng& rng, int64_t icase)
+{
+    const auto P     = make_kkt_box(rng);
+    const auto B     = blocks_t{P};
+    // the order of the arguments: inequalities first, or equalities first and interleaved
+    const auto order = rng.range(0, 1);
+    const auto o0 = cats_t<cL, cG, cR, cE1, cE2>{};
+    const auto o1 = cats_t<cE2, cG, cE1, cR, cL>{};
+    const auto S  = order == 0 ? (P.scalar ? state_blocks<true>(o0, B) : state_blocks<false>(o0, B)) : (P.scalar ? state_blocks<true>(o1, B) : state_blocks<false>(o1, B));
+    const auto& constrained = P.linear ? static_cast<const program::linear_constrained_t&>(*S.m_linear)
+                                       : static_cast<const program::linear_constrained_t&>(*S.m_quadratic);
+    // the stated program has exactly the caller's rows (in whatever order)
+    const auto stackOK = constrained.m_ineq.m_A.cols() == P.G.cols() && constrained.m_ineq.m_b.size() == P.h.size() &&
+                         constrained.m_eq.m_b.size() == P.b.size() && (P.A.rows() == 0 || constrained.m_eq.m_A.cols() == P.A.cols()) &&
+                         sorted_rows(constrained.m_ineq.m_A, constrained.m_ineq.m_b) == sorted_rows(P.G, P.h) &&
+                         sorted_rows(constrained.m_eq.m_A, constrained.m_eq.m_b) == sorted_rows(P.A, P.b);
+    const auto solver  = program::solver_t{};
+    const auto sa      = solve(P);
+    const auto sb      = P.linear ? solver.solve(*S.m_linear, make_null_logger()) : solver.solve(*S.m_quadratic, make_null_logger());
+    // (the clauses do not depend on the order of the rows: the blocks state the rows of P)
+    const auto pr = compare_pair(P, P, sa, sb, false);
+    vt::put(vt::J("Blocks").i("case", icase).i("order", order).i("blocks", S.m_blocks).b("scalar", P.scalar).b("linear", P.linear).i("n", P.c.size()).i(
+        "p", P.A.rows()).i("m", P.G.rows()).s("statusA", status_name(sa.m_status)).s("statusB", status_name(sb.m_status)).b("agree", pr.agree).b(
+        "okB", pr.okB).b("stackOK", stackOK));
+}
+
+// dyadic numbers (exact sums and products in double precision)
+double dyadic(vt::Rng& rng, const int64_t den, const int64_t lo, const int64_t hi)
+{
+    return static_cast<double>(rng.range(lo * den, hi * den)) / static_cast<double>(den);
+}
+
+// a direction d with entries in {-1, 0, +1}
+vector_t make_direction(vt::Rng& rng, const tensor_size_t n)
+{
+    vector_t d = vector_t::zero(n);
+    for (tensor_size_t j = 0; j < n; ++j)
+    {
+        if (rng.coin())
+        {
+            d(j) = rng.coin() ? 1.0 : -1.0;
+        }
+    }
+    if (d.lpNorm<1>() == 0.0)
+    {
+        d(rng.range(0, n - 1)) = rng.coin() ? 1.0 : -1.0;
+    }
+    return d;
+}
+
+// a matrix of dyadic numbers with M d = 0 exactly
+matrix_t make_dyadic_orthogonal(vt::Rng& rng, const tensor_size_t rows, const vector_t& d)
+{
+    const auto    n    = d.size();
+    tensor_size_t last = 0;
+    for (tensor_size_t j = 0; j < n; ++j)
+    {
+        if (d(j) != 0.0)
+        {
+            last = j;
+        }
+    }
+    matrix_t M(rows, n);
+    for (tensor_size_t i = 0; i < rows; ++i)
+    {
+        double sum = 0.0;
+        for (tensor_size_t j = 0; j < n; ++j)
+        {
+            M(i, j) = dyadic(rng, 16, -1, 1);
+            if (j != last)
+            {
+                sum += M(i, j) * d(j);
+            }
+        }
+        M(i, last) = -d(last) * sum;
+    }
+    return M;
+}
+
+// an unbounded program: the ray x0 + t d is feasible for all t >= 0 (G d < 0, A d = 0 exactly), Q d = 0 exactly, c.d < 0
+kkt_program_t make_unbounded(vt::Rng& rng, const bool with_inequalities)
+{
+    kkt_program_t P;
+    const auto    n = rng.range(1, 12);
+    const auto    p = rng.range(0, std::max<int64_t>(0, n - 1));
+    const auto    m = with_inequalities ? rng.range(1, 2 * n + 2) : 0;
+    const auto    d = make_direction(rng, n);
+    P.linear        = rng.coin(1, 3);
+    if (P.linear)
+    {
+        P.Q = matrix_t::zero(n, n);
+    }
+    else
+    {
+        const auto D = make_dyadic_orthogonal(rng, rng.range(1, std::max<int64_t>(1, n - 1)), d);
+        P.Q          = matrix_t(n, n);
+        P.Q.matrix() = std::pow(2.0, static_cast<double>(rng.range(-6, 6))) * (D.matrix().transpose() * D.matrix());
+    }
+    P.xstar = rvec(rng, n, -2.0, 2.0); // a feasible point
+    P.A     = make_dyadic_orthogonal(rng, p, d);
+    P.b     = vector_t(p);
+    if (p > 0)
+    {
+        P.b.vector() = P.A.matrix() * P.xstar.vector();
+    }
+    P.G = matrix_t(m, n);
+    P.h = vector_t(m);
+    for (tensor_size_t i = 0; i < m; ++i)
+    {
+        vector_t g;
+        do
+        {
+            g = rvec(rng, n, -1.0, 1.0);
+        } while (std::fabs(g.dot(d)) < 0.05);
+        if (g.dot(d) > 0.0)
+        {
+            g.vector() = -g.vector();
+        }
+        P.G.matrix().row(i) = g.vector().transpose();
+        P.h(i)              = g.dot(P.xstar) + rng.uniform(0.1, 2.0);
+    }
+    P.c = rvec(rng, n, -1.0, 1.0);
+    P.c.vector() *= std::pow(10.0, rng.uniform(-2.0, 2.0));
+    if (const auto cd = P.c.dot(d); cd > -0.05 * P.c.lpNorm<2>())
+    {
+        P.c.vector() -= ((cd + rng.uniform(0.1, 1.0) * std::max(P.c.lpNorm<2>(), 1e-2)) / d.dot(d)) * d.vector();
+    }
+    P.fstar = -std::numeric_limits<double>::infinity();
+    return P;
+}
+
+// an infeasible program: the equalities are inconsistent (exactly: dyadic coefficients; one row is a multiple / a sum of other rows
+// with another right-hand side), the inequalities alone are strictly feasible
+kkt_program_t make_inconsistent(vt::Rng& rng, const bool with_inequalities)
+{
+    kkt_program_t P;
+    const auto    n  = rng.range(3, 12);
+    const auto    p0 = rng.range(1, n - 2);
+    const auto    m  = with_inequalities ? rng.range(1, 2 * n + 2) : 0;
+    P.linear         = rng.coin(1, 3);
+    if (P.linear)
+    {
+        P.Q = matrix_t::zero(n, n);
+    }
+    else
+    {
+        const auto D = rmat(rng, rng.range(1, n), n, -1.0, 1.0);
+        P.Q          = matrix_t(n, n);
+        P.Q.matrix() = std::pow(10.0, rng.uniform(-2.0, 2.0)) * D.matrix().transpose() * D.matrix();
+    }
+    P.xstar = vector_t(n);
+    for (tensor_size_t j = 0; j < n; ++j)
+    {
+        P.xstar(j) = dyadic(rng, 8, -2, 2);
+    }
+    P.A = matrix_t(p0 + 1, n);
+    P.b = vector_t(p0 + 1);
+    for (tensor_size_t i = 0; i < p0; ++i)
+    {
+        for (tensor_size_t j = 0; j < n; ++j)
+        {
+            P.A(i, j) = dyadic(rng, 16, -1, 1);
+        }
+        P.b(i) = P.A.matrix().row(i).dot(P.xstar.vector());
+    }
+    const auto delta = (rng.coin() ? 1.0 : -1.0) * dyadic(rng, 8, 1, 2);
+    const auto i0    = rng.range(0, p0 - 1);
+    if (p0 >= 2 && rng.coin())
+    {
+        const auto i1        = (i0 + rng.range(1, p0 - 1)) % p0;
+        P.A.matrix().row(p0) = P.A.matrix().row(i0) + P.A.matrix().row(i1);
+        P.b(p0)              = P.b(i0) + P.b(i1) + delta;
+    }
+    else
+    {
+        const auto s         = std::vector<double>{1.0, -1.0, 2.0, 0.5, -4.0}[static_cast<size_t>(rng.range(0, 4))];
+        P.A.matrix().row(p0) = s * P.A.matrix().row(i0);
+        P.b(p0)              = s * P.b(i0) + delta;
+    }
+    permute_rows(rng, P.A, P.b);
+    P.G = rmat(rng, m, n, -1.0, 1.0);
+    P.h = vector_t(m);
+    for (tensor_size_t i = 0; i < m; ++i)
+    {
+        P.h(i) = P.G.matrix().row(i).dot(P.xstar.vector()) + rng.uniform(0.1, 2.0);
+    }
+    P.c = rvec(rng, n, -1.0, 1.0);
+    P.c.vector() *= std::pow(10.0, rng.uniform(-2.0, 2.0));
+    P.fstar = std::numeric_limits<double>::infinity();
+    return P;
+}
+
+// a program without inequalities whose optimum is fixed by construction: Q x* + c + A'v = 0, A x* = b
+kkt_program_t make_kkt_noineq(vt::Rng& rng, const bool linear)
+{
+    kkt_program_t P;
+    const auto    n     = rng.range(linear ? 2 : 1, 12);
+    const auto    p     = (!linear && rng.coin(1, 3)) ? 0 : rng.range(linear ? 1 : 0, std::max<int64_t>(0, n - 1)); // (unconstrained now and then)
+    const auto    scale = std::pow(10.0, rng.uniform(-2.0, 2.0));
+    P.linear            = linear;
+    if (P.linear)
+    {
+        P.Q = matrix_t::zero(n, n);
+    }
+    else
+    {
+        // (mostly of a rank that makes the optimum unique: rank(Q) + p >= n)
+        const auto D = rmat(rng, rng.coin(2, 3) ? rng.range(std::max<int64_t>(1, n - p), n) : rng.range(1, n), n, -1.0, 1.0);
+        P.Q          = matrix_t(n, n);
+        P.Q.matrix() = scale * D.matrix().transpose() * D.matrix();
+    }
+    P.xstar = rvec(rng, n, -2.0, 2.0);
+    P.A     = rmat(rng, p, n, -1.0, 1.0);
+    P.b     = vector_t(p);
+    P.G     = matrix_t(0, n);
+    P.h     = vector_t(0);
+    P.u     = vector_t(0);
+    P.v     = rvec(rng, p, -1.0, 1.0);
+    P.v.vector() *= scale;
+    P.c          = vector_t(n);
+    P.c.vector() = -(P.Q.matrix() * P.xstar.vector());
+    if (p > 0)
+    {
+        P.b.vector() = P.A.matrix() * P.xstar.vector();
+        P.c.vector() -= P.A.matrix().transpose() * P.v.vector();
+    }
+    P.fstar = 0.5 * P.xstar.dot(P.Q.matrix() * P.xstar.vector()) + P.c.dot(P.xstar);
+    return P;
+}
+
+// a program without inequalities as the caller states it: the equalities (if any) in one block, no block at all otherwise
+program::solver_state_t solve_noineq(const kkt_program_t& P, const vector_t* x0)
+{
+    const auto solver = program::solver_t{};
+    const auto eq     = program::make_equality(P.A, P.b);
+    if (P.linear)
+    {
+        const auto program = P.A.rows() > 0 ? program::make_linear(P.c, eq) : program::linear_program_t{P.c};
+        return x0 != nullptr ? solver.solve(program, *x0, make_null_logger()) : solver.solve(program, make_null_logger());
+    }
+    const auto program = P.A.rows() > 0 ? program::make_quadratic(P.Q, P.c, eq) : program::quadratic_program_t{P.Q, P.c};
+    return x0 != nullptr ? solver.solve(program, *x0, make_null_logger()) : solver.solve(program, make_null_logger());
+}
+
+void put_kkt(int64_t icase, const char* family, const std::string& label, const kkt_program_t& P, const program::solver_state_t& state)
+{
+    const auto cl = check(P.Q, P.c, P.A, P.b, P.G, P.h, state, P.xstar, P.fstar);
+    vt::put(vt::J("Kkt").i("case", icase).s("label", label).b("linear", P.linear).i("n", P.c.size()).i("p", P.A.rows()).i("m", P.G.rows()).s(
+        "status", status_name(state.m_status)).i("iters", state.m_iters).b("eqOK", cl.eqOK).b("ineqOK", cl.ineqOK).b("objOK", cl.objOK).b("gapOK", cl.gapOK).s(
+        "fam", family));
+}
+
+void noineq_case(vt::Rng& rng, int64_t icase)
+{
+    const auto    kind = rng.range(0, 7);
+    kkt_program_t P;
+    std::string   label = "optimal";
+    if (kind <= 2)
+    {
+        P = make_kkt_noineq(rng, false);
+    }
+    else if (kind <= 4)
+    {
+        P = make_kkt_noineq(rng, true);
+    }
+    else if (kind == 5)
+    {
+        // a linear objective that is not a combination of the equality rows / a null direction of Q along which the objective decreases
+        P     = make_unbounded(rng, false);
+        label = "unbounded";
+    }
+    else if (kind == 6)
+    {
+        P     = make_kkt_noineq(rng, true);
+        P.c   = rvec(rng, P.c.size(), -1.0, 1.0);
+        label = "unbounded";
+    }
+    else
+    {
+        P     = make_inconsistent(rng, false);
+        label = "infeasible";
+    }
+    const auto x0    = rvec(rng, P.c.size(), -3.0, 3.0);
+    const auto state = solve_noineq(P, rng.coin() ? &x0 : nullptr);
+    put_kkt(icase, "noineq", label, P, state);
+}
+
+void plant_case(vt::Rng& rng, int64_t icase)
+{
+    const auto kind = rng.range(0, 2);
+    if (kind == 0)
+    {
+        const auto P = make_unbounded(rng, true);
+        put_kkt(icase, "plant", "unbounded", P, solve(P));
+    }
+    else if (kind == 1)
+    {
+        const auto P = make_inconsistent(rng, true);
+        put_kkt(icase, "plant", "infeasible", P, solve(P));
+    }
+    else
+    {
+        // an equality q.x = t together with the inequality q.x <= t - 1 (the other constraints hold at x*; at most n - 1 equalities)
+        auto P = make_kkt(rng);
+        while (P.c.size() < 2)
+        {
+            P = make_kkt(rng);
+        }
+        const auto n = P.c.size();
+        const auto p = std::min(P.A.rows(), n - 2);
+        const auto m = P.G.rows();
+        const auto q = rvec(rng, n, -1.0, 1.0);
+        matrix_t   A(p + 1, n), G(m + 1, n);
+        vector_t   b(p + 1), h(m + 1);
+        A.matrix().topRows(p) = P.A.matrix().topRows(p);
+        b.vector().head(p)    = P.b.vector().head(p);
+        A.matrix().row(p)     = q.vector().transpose();
+        b(p)                  = q.dot(P.xstar);
+        G.matrix().topRows(m) = P.G.matrix();
+        h.vector().head(m)    = P.h.vector();
+        G.matrix().row(m)     = q.vector().transpose();
+        h(m)                  = q.dot(P.xstar) - 1.0;
+        P.A                   = A;
+        P.b                   = b;
+        P.G                   = G;
+        P.h                   = h;
+        permute_rows(rng, P.A, P.b);
+        permute_rows(rng, P.G, P.h);
+        put_kkt(icase, "plant", "infeasible", P, solve(P));
+    }
+}
+
+// a generic strictly interior user start, far from the optimum and off the equalities: the rows that would exclude the start are
+// mirrored (active ones: -G_i x <= -h_i is active at x* as well) or relaxed (inactive ones), the objective is re-derived from the
+// stationarity condition
+void interior_case(vt::Rng& rng, int64_t icase)
+{
+    auto       P  = make_kkt(rng);
+    const auto n  = P.c.size();
+    vector_t   x0 = P.xstar;
+    x0.vector() += rvec(rng, n, -1.0, 1.0).vector() * std::pow(10.0, rng.uniform(-0.5, 1.0));
+    for (tensor_size_t i = 0; i < P.G.rows(); ++i)
+    {
+        const auto gx0 = P.G.matrix().row(i).dot(x0.vector());
+        if (gx0 < P.h(i))
+        {
+            continue;
+        }
+        if (P.u(i) > 0.0)
+        {
+            P.G.matrix().row(i) *= -1.0;
+            P.h(i) = -P.h(i);
+        }
+        else
+        {
+            P.h(i) = gx0 + rng.uniform(0.1, 2.0);
+        }
+    }
+    P.c.vector() = -(P.Q.matrix() * P.xstar.vector()) - P.G.matrix().transpose() * P.u.vector();
+    if (P.A.rows() > 0)
+    {
+        P.c.vector() -= P.A.matrix().transpose() * P.v.vector();
+    }
+    P.fstar            = 0.5 * P.xstar.dot(P.Q.matrix() * P.xstar.vector()) + P.c.dot(P.xstar);
+    const auto strict  = (P.G.matrix() * x0.vector() - P.h.vector()).maxCoeff() < 0.0;
+    const auto offeq   = P.A.rows() == 0 || (P.A.matrix() * x0.vector() - P.b.vector()).lpNorm<Eigen::Infinity>() > 1e-3;
+    const auto state   = solve(P, &x0);
+    put_kkt(icase, "interior", strict ? (offeq ? "interior" : "optimal") : "badstart", P, state);
+}
+
+void extra_case(vt::Rng& rng, int64_t icase, int64_t index)
+{
+    switch (index % 6)
+    {
+    case 0: rowperm_case(rng, icase); break;
+    case 1: blocks_case(rng, icase); break;
+    case 2: noineq_case(rng, icase); break;
+    case 3: plant_case(rng, icase); break;
+    case 4: interior_case(rng, icase); break;
+    default: noineq_case(rng, icase); break;
+    }
 }
 } // namespace
 
@@ -489,12 +1225,12 @@ int main(int argc, char* argv[])
 {
     if (argc < 6)
     {
-        std::fprintf(stderr, "usage: program_driver <out.ndjson> <seed> <small-cases> <kkt-cases> <pair-cases>\n");
+        std::fprintf(stderr, "usage: program_driver <out.ndjson> <seed> <small-cases> <kkt-cases> <pair-cases> [<extra-cases>]\n");
         return 2;
     }
     vt::Trace::get().open(argv[1]);
     vt::Rng    rng(static_cast<uint64_t>(std::atoll(argv[2])));
-    const auto ns = std::atoll(argv[3]), nk = std::atoll(argv[4]), np = std::atoll(argv[5]);
+    const auto ns = std::atoll(argv[3]), nk = std::atoll(argv[4]), np = std::atoll(argv[5]), nx = argc > 6 ? std::atoll(argv[6]) : 0LL;
     int64_t    icase = 0;
     for (int64_t i = 0; i < ns; ++i)
     {
@@ -507,6 +1243,10 @@ int main(int argc, char* argv[])
     for (int64_t i = 0; i < np; ++i)
     {
         pair_case(rng, icase++);
+    }
+    for (int64_t i = 0; i < nx; ++i)
+    {
+        extra_case(rng, icase++, i);
     }
     vt::put(vt::J("Kkt").i("case", -1).s("label", "end").b("linear", true).i("n", 0).i("p", 0).i("m", 0).s("status", "max_iters").i("iters", 0).b("eqOK", true).b(
         "ineqOK", true).b("objOK", true).b("gapOK", true));
